@@ -566,6 +566,26 @@ class Execution:
                 rec(r)
             snap = out
         self.writes.append((name, type(self.current).__name__, self.current_time, snap))
+        if "C09" in self.mon and args and args[0] is self.med:
+            # a dump is being written: the state that gets pickled must be consistent in itself -- the handlers with a
+            # live event in the scheduler are exactly the activator's running handlers (a resumed run starts from it)
+            try:
+                running = set(h for hs in self.act._running_event_handlers.values() for h in hs)
+                sch = self.sch
+                if hasattr(sch, "_minimal_valid_counter"):
+                    live = set(h for q, r, h, c in sch.__getstate__()["heap_entries"]
+                               if c >= sch._minimal_valid_counter.get(h, 0))
+                else:
+                    live = set(e.event_handler for e in sch._times)
+            except Exception as e:
+                raise HarnessError("C09 dump-consistency monitor cannot read scheduler/activator: %r" % (e,))
+            self.stats["c09_dumps_checked"] += 1
+            if live != running:
+                self.V("C09:dump-inconsistent", "the dump written by %s pickles a scheduler with live events of %s but "
+                       "an activator that additionally runs %s"
+                       % (type(self.current).__name__, sorted(type(h).__name__ for h in live - running) or "-",
+                          sorted(type(h).__name__ for h in running - live) or "-") + " (first list: live in the scheduler only; "
+                       "second list: running in the activator only)")
 
     # ---- C07 --------------------------------------------------------------------------------------------------------
     def check_c07(self, before, after, h, t):
